@@ -1,3 +1,48 @@
-import PGM.Model.Public
+import PGM.Proofs.PublicSem
+/-!
+# C19 — public-data reweighting yields valid weights and never a worse fit
+
+Theorems about `PGM/Model/Public.lean` (entropic mirror descent of `public_inference.py`, transcribed
+as written — the acceptance test uses the *stale* starting point `P₀`), at the real-number instance.
+The squared-error objective as a function of the record weights is the quadratic `Cert.loss` with
+`A = (1/σ)·Q·Inc`; `Cert.fw_gap_bound`'s first-order convexity (C03) pins `dweights` as its gradient.
+-/
 namespace PGM.C19
+open PGM PGM.Public
+
+/-- **valid weights**: for every objective, every positive starting weights, every total > 0 and
+every iteration count (0 included), the output has one weight per record, each strictly positive,
+and they sum to the total (`eps0 = 0`: the `nextafter(0,1)` guard only matters for zero weights) -/
+theorem emd_weights_valid (lossgrad : List ℝ → ℝ × List ℝ) (x0 : List ℝ) (total : ℝ) (iters : Nat)
+    (hg : GradLen lossgrad) (hx : ∀ x ∈ x0, 0 < x) (hne : x0 ≠ []) (ht : 0 < total) :
+    (emd lossgrad x0 total 0 iters).length = x0.length ∧
+    (∀ w ∈ emd lossgrad x0 total 0 iters, 0 < w) ∧
+    (emd lossgrad x0 total 0 iters).sum = total := by
+  apply Public.emd_weights_valid <;> assumption
+
+/-- with zero iterations the weights are the rescaled starting weights -/
+theorem emd_zero_iters (lossgrad : List ℝ → ℝ × List ℝ) (x0 : List ℝ) (total : ℝ)
+    (hx : ∀ x ∈ x0, 0 < x) (hne : x0 ≠ []) (ht : 0 < total) :
+    emd lossgrad x0 total 0 0 = x0.map (fun x => x * total / x0.sum) := by
+  apply Public.emd_zero_iters <;> assumption
+
+/-- **conditional descent (as written)**: one iteration never increases the stored loss when the
+acceptance threshold `½·α·⟨dL, P₀ − Q⟩` (computed with the *stale* `P₀`) is nonnegative; when it is
+negative an increase can be accepted — the unconditional "never worse than uniform" is therefore
+not derivable from the acceptance rule and is checked per run -/
+theorem emd_step_descent (lossgrad : List ℝ → ℝ × List ℝ) (total : ℝ) (P0 : List ℝ) (s : EmdState ℝ) :
+    let logQ0 := List.zipWith (fun lp d => lp - s.alpha * d) s.logP s.dL
+    let shift := Real.log total - Real.log ((logQ0.map Real.exp).sum)
+    let Q := (logQ0.map (fun v => v + shift)).map Real.exp
+    0 ≤ (1 / 2 : ℝ) * s.alpha * dotv s.dL (List.zipWith (· - ·) P0 Q) →
+    (emdStep lossgrad total P0 s).loss ≤ s.loss := by
+  apply Public.emd_step_descent <;> assumption
+
+/-- the stored loss is always the objective at the stored point -/
+theorem emd_step_loss_consistent (lossgrad : List ℝ → ℝ × List ℝ) (total : ℝ) (P0 : List ℝ) (s : EmdState ℝ)
+    (h : s.loss = (lossgrad (s.logP.map Real.exp)).1 ∧ s.dL = (lossgrad (s.logP.map Real.exp)).2) :
+    (emdStep lossgrad total P0 s).loss = (lossgrad ((emdStep lossgrad total P0 s).logP.map Real.exp)).1 ∧
+    (emdStep lossgrad total P0 s).dL = (lossgrad ((emdStep lossgrad total P0 s).logP.map Real.exp)).2 := by
+  apply Public.emd_step_loss_consistent <;> assumption
+
 end PGM.C19
